@@ -533,6 +533,7 @@ func main() {
 	translateMultiExpDriver(*repo, writeImp)
 	translateFrCodec(*repo, writeImp)
 	translateBatchConv(*repo, writeImp)
+	translateSqrtFp(*repo, writeImp)
 	fmt.Println("extract: ok")
 }
 
